@@ -4,6 +4,7 @@ package pgsem
 
 import (
 	"math/big"
+	"strconv"
 	"strings"
 )
 
@@ -228,8 +229,19 @@ func (p *parser) parseCreate() Stmt {
 			sch = n
 			n = p.ident()
 		}
-		p.skipToEnd()
-		return &CreateSequence{Schema: sch, Name: n}
+		cs := &CreateSequence{Schema: sch, Name: n, Cache: 1}
+		for p.peek().kind != tEOF && !p.isOp(";") { // options: only CACHE changes what the ledger can observe
+			if p.acceptKw("cache") {
+				if t := p.peek(); t.kind == tNumber {
+					if v, err := strconv.ParseInt(t.s, 10, 64); err == nil && v >= 1 {
+						cs.Cache = v
+					}
+				}
+				continue
+			}
+			p.next()
+		}
+		return cs
 	case p.acceptKw("trigger"):
 		ct := &CreateTrigger{Name: p.ident()}
 		ct.Timing = p.ident() // before | after
